@@ -193,7 +193,9 @@ def interpvars(f, weights, dimension, loginterp=[]):
             outf.groups[grpk] = interpvars(grpv, weights, dimension)
 
     oldd = f.dimensions[dimension]
-    didx, = [i for i, l in enumerate(weights.shape) if len(oldd) == l]
+    # weights are dim(new, old); with as many new as old points both axes
+    # match the old length and the old axis is the last one
+    didx = [i for i, l in enumerate(weights.shape) if len(oldd) == l][-1]
 
     newd = outf.createDimension(dimension, weights.shape[didx - 1])
     newd.setunlimited(oldd.isunlimited())
